@@ -8,7 +8,7 @@ CHECKS['C07'] = dict(
          '(standard and RFC 9072 layouts). Peer OPEN bytes come from the reference encoder; all vectors with at most K (quick 2, thorough 3) of 15 '
          'units off default are run, interacting groups (AS fields x ASN4 instances, families x families, add-path x add-path, hold x hold, ext-msg, '
          'refresh, ext-nh) being crossed fully inside a unit, plus every capability sequence of length <= 3 (duplicates, orders) in 4 parameter '
-         'layouts, damaged parameter blocks, and every vector with at most one unit off default negotiated right after an all-on and after an all-off session in the same process (the result must not depend on what was negotiated before). Each pair goes through the real Message.unpack(OPEN), Negotiated.sent/received and '
+         'layouts, damaged parameter blocks, and every vector with at most one unit off default negotiated right after an all-on session, an all-off session and a session whose peer advertised route refresh under codes 2 then 128, in the same process (the result must not depend on what was negotiated before; our OPEN is built again then and must still advertise what the configuration enables). Each pair goes through the real Message.unpack(OPEN), Negotiated.sent/received and '
          'Protocol.validate_open and is compared with vt/ref/negotiate.py (families, asn4, both AS numbers, add-path per family and direction, '
          'ext-nh tuples, refresh flavour, message size, hold time, or the refusal subcode). A pure function of two small inputs: exhaustive '
          'small-scope enumeration with an independent oracle is the fitting level.',
